@@ -15,11 +15,13 @@ func init() {
 	register(&Check{
 		ID:  "C03",
 		Run: runC03,
-		Explanation: "Decides two code-shape clauses of 'a successful operation publishes exactly the result': (R1 mode preservation) in each stager that can replace an existing destination (api.openStagedOutputWithOperations, pdfcpu.createStagedFile, cli.createStreamOutput, api.writeCutOutputWith) every success path after the temp file was created either passes a successful Chmod of the temp handle whose mode argument is computed as <stat(destination)>.Mode().Perm() — where the stat is os.Stat (follows symlinks; os.Lstat is rejected) or an operation-table field whose production binding is os.Stat — or runs on the edge where that stat reported the destination absent; the permission bits are therefore set explicitly on the handle (not through the open mode, which the umask filters); (R2 alias rejection) every image-input file operation (NUpFile, GridFile, BookletFile in image mode; ImportImagesFile; UpdateImagesFile) reaches openStagedOutput only after its reject helper succeeded, each reject helper calls outputAliasesInput for every input in its loop and returns a non-nil error on the aliases==true edge, outputAliasesInput compares absolute paths and os.SameFile of os.Stat results (hard links, symlinks, other spellings), and pdfcpu.CopyFile short-circuits on os.SameFile before staging. The remaining clauses follow from C01.R3/C02 (no in-place write, publish by rename, no leftovers). (R3 destination identity) at every call of api.openStagedOutput* the destination argument takes only the values \"\" (in place) and names that do not come from an input-path parameter of the calling function (inFile, inFiles[i], inFilePDF): publishing under the input's name leaves the path the caller named with its old content and rewrites the distinct input; (R4) renames over a destination occur only in the mode-preserving publishers of the staging-layer table (closed world of rename primitives and their module wrappers api.replaceFile / fileOperations.replaceFile, same table as C01.R3): a direct rename of another file over an existing destination drops its permission bits. NOT decided: that the published bytes are the complete output (content), OS resolution of links, ownership/ACLs/xattrs.",
+		Explanation: "Decides two code-shape clauses of 'a successful operation publishes exactly the result': (R1 mode preservation) in each stager that can replace an existing destination (api.openStagedOutputWithOperations, pdfcpu.createStagedFile, cli.createStreamOutput, api.writeCutOutputWith) every success path after the temp file was created either passes a successful Chmod of the temp handle whose mode argument is computed as <stat(destination)>.Mode().Perm() — where the stat is os.Stat (follows symlinks; os.Lstat is rejected) or an operation-table field whose production binding is os.Stat — or runs on the edge where that stat reported the destination absent; the permission bits are therefore set explicitly on the handle (not through the open mode, which the umask filters); (R2 alias rejection) every image-input file operation (NUpFile, GridFile, BookletFile in image mode; ImportImagesFile; UpdateImagesFile) reaches openStagedOutput only after its reject helper succeeded, each reject helper calls outputAliasesInput for every input in its loop and returns a non-nil error on the aliases==true edge, outputAliasesInput compares absolute paths and os.SameFile of os.Stat results (hard links, symlinks, other spellings), and pdfcpu.CopyFile short-circuits on os.SameFile before staging. The remaining clauses follow from C01.R3/C02 (no in-place write, publish by rename, no leftovers). (R3 destination identity) at every call of api.openStagedOutput* the destination argument takes only the values \"\" (in place) and names that do not come from an input-path parameter of the calling function (inFile, inFiles[i], inFilePDF): publishing under the input's name leaves the path the caller named with its old content and rewrites the distinct input; (R4) renames over a destination occur only in the mode-preserving publishers of the staging-layer table (closed world of rename primitives and their module wrappers api.replaceFile / fileOperations.replaceFile, same table as C01.R3): a direct rename of another file over an existing destination drops its permission bits. (R5) in every pkg/api / pkg/cli function with inFile and outFile parameters, a boolean that compares the two paths (or strings derived from them by strings/path/filepath functions) is an exact string (in)equality of the two parameters or a file-identity predicate (outputAliasesInput, os.SameFile), followed through module wrappers: case folding or cleaning identifies different files and sends the result to the wrong one. (R6) a write-capable open of inFile (os.OpenFile with O_WRONLY/O_RDWR, os.Create) is reached only where outFile is empty or equal to inFile on every way in (the increment writers of pkg/api/annotation.go). NOT decided: that the published bytes are the complete output (content), OS resolution of links, ownership/ACLs/xattrs.",
 		Rules: []string{
 			"C03.R1 MPT+flow: chmod(temp, stat(destination).Mode().Perm()) on every success path after temp creation when the destination exists",
 			"C03.R3 flow: the stager's destination argument never takes the input path's name",
 			"C03.R4 WMC: renames over a destination only in the mode-preserving publishers (staging-layer table)",
+			"C03.R5 shape: in/out path identity is decided by exact (in)equality or file identity",
+			"C03.R6 MPT: the input file is opened for writing only where the operation is in place",
 			"C03.R2 MPT: alias rejection before staging in image-input operations; shape of the reject helpers and of outputAliasesInput",
 		},
 		Assumptions: []string{"os.Stat follows symlinks; (*os.File).Chmod is not filtered by the umask"},
@@ -238,6 +240,10 @@ func runC03(c *Ctx) {
 	// destination drops the destination's permission bits.
 	r.MinInst["C03.R4"] = 8
 	runFSWMC(c, "C03.R4", map[string]bool{"rename": true})
+	r.MinInst["C03.R5"] = 25
+	checkPathIdentityDecisions(c)
+	r.MinInst["C03.R6"] = 3
+	checkInputWrittenOnlyInPlace(c)
 }
 
 // checkDestinationIdentity: at every call of api.openStagedOutput* the destination argument takes only the values "" and
